@@ -64,8 +64,13 @@ class C07(Prop):
 
     def impl(self, line):
         flags, en, div, ops = parse_line(line)
-        started = (hash(line) & 3) == 0
-        out, info = sl.run_cfg_history(flags, en, div, ops, started=started)
+        import zlib
+        h = zlib.crc32(line.encode())
+        started = (h & 3) == 0
+        rxp = [0, 0, 4, 16, 3, 8, 64, 255][(h >> 2) & 7]
+        out, info = sl.run_cfg_history(flags, en, div, ops, started=started, rxpadding=rxp)
+        if info.get("unaligned"):
+            return "unaligned-write " + repr(info["unaligned"][:3])
         if info["errors"] or info["live_after"]:
             return "harness: " + repr(info["errors"]) + repr(info["live_after"])
         return "ok " + " | ".join(out)
@@ -76,10 +81,16 @@ class C07(Prop):
     def oracle(self, line, impl_out=None):
         flags, en, div, ops = parse_line(line)
         n = len(en)
+        import zlib
+        rxp = [0, 0, 4, 16, 3, 8, 64, 255][(zlib.crc32(line.encode()) >> 2) & 7]
         try:
-            out, info = sl.run_cfg_history(flags, en, div, ops, started=True)
+            out, info = sl.run_cfg_history(flags, en, div, ops, started=True, rxpadding=rxp)
         except Exception as e:
             return {"key": "session-raises", "what": f"{type(e).__name__}: {e}", "expected": "no exception", "observed": type(e).__name__}
+        if info.get("unaligned"):
+            return {"key": "unaligned-write", "what": f"with rx padding {rxp} a request was written with a length that is not a multiple of it "
+                    f"(a device receiving in rx-padding-sized blocks never consumes it): {info['unaligned'][:3]}",
+                    "expected": "every write padded to a multiple of the rx padding", "observed": str(info["unaligned"][:3])}
         if info["errors"]:
             return {"key": "thread-died", "what": "a library thread died: " + repr(info["errors"][0]), "expected": "-", "observed": "-"}
         if info["dev_started_after_connect"]:
